@@ -285,6 +285,8 @@ theorem hasConflict_of_overwrite (c : MvccCfg) (hc : c.ConfGood) (fp : Key → N
   obtain ⟨fps, hmem, hfp⟩ := hI.hist cm hcm (by simp only at hheld; omega)
   have hr : fp k ∈ t.reads := (hI.txnOk id t hl).2 k hk
   unfold hasConflict
+  split
+  · rfl
   have hne : t.reads ≠ [] := by intro h; rw [h] at hr; cases hr
   simp only [hne, if_false, Bool.or_eq_true, hfin, Bool.not_false, Bool.true_and]
   right
@@ -356,14 +358,14 @@ theorem InvSer_step (c : MvccCfg) (hc : c.ConfGood) (fp : Key → Nat) (s : St) 
       | some v =>
         have := hasConflict_of_overwrite c hc fp s hI id t hl cm hcm hts k hk v (lookupW_mem hx)
         rw [this] at hnc; cases hnc
-    suffices key : SerialOK ({ ts := s.nextTs, readTs := t.readTs, writes := t.writes, rlog := t.rlog } :: s.log) ∧
-        NoOverwrite ({ ts := s.nextTs, readTs := t.readTs, writes := t.writes, rlog := t.rlog } :: s.log) from
+    suffices key : SerialOK (commitOf t s.nextTs :: s.log) ∧
+        NoOverwrite (commitOf t s.nextTs :: s.log) from
       ⟨by rw [h2]; exact key.1, by rw [h2]; exact key.2⟩
     refine ⟨⟨?_, h.serial⟩, ?_⟩
     · -- the new transaction's reads hold on the abstract map of everything committed before it
       intro p hp
       obtain ⟨hval, hkey⟩ := hR id t hl p hp
-      simp only at hp ⊢
+      simp only [commitOf_rlog] at hp ⊢
       have hlt := hB.readLt id t hl
       have hpos := hB.pos
       have hstable : readAt s.store p.1 (s.nextTs - 1) = readAt s.store p.1 t.readTs := by
@@ -381,17 +383,355 @@ theorem InvSer_step (c : MvccCfg) (hc : c.ConfGood) (fp : Key → Nat) (s : St) 
     · intro cm hcm cm' hcm' h1 h2' p hp
       rcases List.mem_cons.mp hcm with rfl | hcm
       · rcases List.mem_cons.mp hcm' with rfl | hcm'
-        · simp only at h2'; omega
-        · simp only at h1 hp
+        · simp only [commitOf_ts] at h2'; omega
+        · simp only [commitOf_readTs, commitOf_rlog] at h1 hp
           exact hno cm' hcm' h1 p.1 (hR id t hl p hp).2
       · rcases List.mem_cons.mp hcm' with rfl | hcm'
         · have := hA.logLt cm hcm
-          simp only at h2'; omega
+          simp only [commitOf_ts] at h2'; omega
         · exact h.noOver cm hcm cm' hcm' h1 h2' p hp
   · have e2 : (step c fp s op).1.log = s.log := by rw [hs]; rfl
     exact ⟨by rw [e2]; exact h.serial, by rw [e2]; exact h.noOver⟩
 
 theorem Reach_InvSer {c : MvccCfg} (hc : c.ConfGood) {fp : Key → Nat} {s : St} (h : Reach c fp s) : InvSer s :=
   Reach_ind (P := InvSer) InvSer_init (fun s op hr hs => InvSer_step c hc fp s op hr hs) h
+
+-- ---------------------------------------------------------------- range reads (scans)
+
+/-- what a scan's observation says about key `k`: the value it returned for it, or nothing -/
+def lookupI (items : List (Key × Val)) (k : Key) : Option Val :=
+  match items.find? (fun p => p.1 = k) with
+  | some p => some p.2
+  | none => none
+
+/-- Re-running every logged scan on the abstract map returns the same observation: for every key
+the scan asked the store about (every key not shadowed by the transaction's own pending writes
+at that moment) — returned or ABSENT — the item list says exactly what the map holds.  (Item
+lists are sorted by key and duplicate-free, so this is equality of the item lists.) -/
+def scansOk (m : AMap) (cm : Commit) : Prop :=
+  ∀ sc ∈ cm.slog, ∀ k, k ∉ sc.1 → lookupI sc.2 k = m k
+
+/-- `Serial` with range reads: each transaction also re-runs its scans -/
+def SerialR (m : AMap) : List Commit → AMap → Prop
+  | [], m' => m' = m
+  | cm :: rest, m' => readsOk m cm ∧ scansOk m cm ∧ SerialR (applyTxn m cm) rest m'
+
+theorem SerialR_append (m : AMap) (xs ys : List Commit) (m' : AMap) :
+    SerialR m (xs ++ ys) m' ↔ ∃ mid, SerialR m xs mid ∧ SerialR mid ys m' := by
+  induction xs generalizing m with
+  | nil =>
+    simp only [List.nil_append, SerialR]
+    constructor
+    · intro h; exact ⟨m, rfl, h⟩
+    · rintro ⟨mid, rfl, h⟩; exact h
+  | cons x xs ih =>
+    simp only [List.cons_append, SerialR, ih]
+    constructor
+    · rintro ⟨hr, hsc, mid, h1, h2⟩; exact ⟨mid, ⟨hr, hsc, h1⟩, h2⟩
+    · rintro ⟨mid, ⟨hr, hsc, h1⟩, h2⟩; exact ⟨hr, hsc, mid, h1, h2⟩
+
+def ScanOKs : List Commit → Prop
+  | [] => True
+  | cm :: older => scansOk (amapOf older) cm ∧ ScanOKs older
+
+theorem SerialR_of_OKs (log : List Commit) (h : SerialOK log) (hs : ScanOKs log) :
+    SerialR (fun _ => none) log.reverse (amapOf log) := by
+  induction log with
+  | nil => rfl
+  | cons cm older ih =>
+    obtain ⟨hr, hrest⟩ := h
+    obtain ⟨hsc, hsrest⟩ := hs
+    rw [List.reverse_cons, SerialR_append]
+    exact ⟨amapOf older, ih hrest hsrest, hr, hsc, rfl⟩
+
+theorem mem_insertKey (k x : Key) (l : List Key) : x ∈ insertKey k l ↔ x = k ∨ x ∈ l := by
+  induction l with
+  | nil => simp [insertKey]
+  | cons y ys ih =>
+    simp only [insertKey]
+    split
+    · rename_i h; subst h
+      constructor
+      · intro hx; exact Or.inr hx
+      · rintro (rfl | hx)
+        · exact List.mem_cons_self
+        · exact hx
+    · split
+      · simp only [List.mem_cons]
+      · simp only [List.mem_cons, ih]
+        constructor
+        · rintro (h | h | h)
+          · exact Or.inr (Or.inl h)
+          · exact Or.inl h
+          · exact Or.inr (Or.inr h)
+        · rintro (h | h | h)
+          · exact Or.inr (Or.inl h)
+          · exact Or.inl h
+          · exact Or.inr (Or.inr h)
+
+theorem mem_foldr_insertKey (l : List Key) (x : Key) : x ∈ l.foldr insertKey [] ↔ x ∈ l := by
+  induction l with
+  | nil => simp
+  | cons y ys ih => simp only [List.foldr_cons, mem_insertKey, ih, List.mem_cons]
+
+theorem scanItem_key {s : St} {t : Txn} {k : Key} {it : Key × Val × Nat} (h : scanItem s t k = some it) : it.1 = k := by
+  unfold scanItem at h
+  split at h
+  · simp only [Option.some.injEq] at h; subst h; rfl
+  · cases h
+  · split at h
+    · split at h
+      · simp only [Option.some.injEq] at h; subst h; rfl
+      · cases h
+    · cases h
+
+theorem scanItem_none_readAt {s : St} {t : Txn} {k : Key} (h : scanItem s t k = none) (hown : ownOf t k = none) :
+    readAt s.store k t.readTs = none := by
+  unfold scanItem at h
+  rw [hown] at h
+  simp only at h
+  unfold readAt
+  cases hb : bestOf s.store k t.readTs with
+  | none => rfl
+  | some e =>
+    rw [hb] at h
+    simp only at h
+    cases hv : e.val with
+    | none => simp [hv]
+    | some v => rw [hv] at h; simp at h
+
+/-- the observation list of a scan over the key list `keys`, as `scanTxn` computes it -/
+def obsOf (s : St) (t : Txn) (keys : List Key) : List (Key × Val) :=
+  ((keys.filterMap (scanItem s t)).filter (fun it => ownOf t it.1 = none)).map (fun it => (it.1, it.2.1))
+
+theorem lookupI_obsOf (s : St) (t : Txn) (keys : List Key) (k : Key) (hown : ownOf t k = none) :
+    lookupI (obsOf s t keys) k = if k ∈ keys then readAt s.store k t.readTs else none := by
+  induction keys with
+  | nil => simp [obsOf, lookupI]
+  | cons x xs ih =>
+    have hcons : obsOf s t (x :: xs) =
+        (match scanItem s t x with
+         | some it => if ownOf t it.1 = none then [(it.1, it.2.1)] else []
+         | none => []) ++ obsOf s t xs := by
+      unfold obsOf
+      simp only [List.filterMap_cons]
+      cases scanItem s t x with
+      | none => simp
+      | some it =>
+        by_cases hq : ownOf t it.1 = none
+        · simp [hq]
+        · simp [hq]
+    rw [hcons]
+    cases hsi : scanItem s t x with
+    | none =>
+      simp only [List.nil_append, ih, List.mem_cons]
+      by_cases hx : k = x
+      · subst hx
+        have := scanItem_none_readAt hsi hown
+        simp only [true_or, if_true, this]
+        split <;> rfl
+      · simp [hx]
+    | some it =>
+      have hk1 := scanItem_key hsi
+      by_cases hq : ownOf t it.1 = none
+      · simp only [hq, if_true, List.singleton_append]
+        by_cases hx : k = x
+        · subst hx
+          obtain ⟨_, e2⟩ := scanItem_served hsi hq
+          simp [lookupI, hk1, e2]
+        · have hne : ¬ (it.1 = k) := by rw [hk1]; exact fun h => hx h.symm
+          have : lookupI ((it.1, it.2.1) :: obsOf s t xs) k = lookupI (obsOf s t xs) k := by
+            simp [lookupI, List.find?_cons, hne]
+          rw [this, ih]
+          simp [hx]
+      · simp only [hq, if_false, List.nil_append, ih, List.mem_cons]
+        have hx : k ≠ x := by
+          intro h; subst h; rw [hk1] at hq; exact hq hown
+        simp [hx]
+
+theorem readAt_none_of_no_key (st : List Entry) (k : Key) (r : Nat) (h : ∀ e ∈ st, e.key ≠ k) : readAt st k r = none := by
+  unfold readAt
+  cases hb : bestOf st k r with
+  | none => rfl
+  | some e =>
+    obtain ⟨hm, hk, _⟩ := bestOf_some hb
+    exact absurd hk (h e hm)
+
+/-- what `scanTxn` logs is the store's answer for every key outside the transaction's own writes -/
+theorem scan_observation (s : St) (t : Txn) (hu : t.update = true) (k : Key) (hk : k ∉ t.writes.map (·.1)) :
+    lookupI (obsOf s t ((t.writes.map (·.1) ++ s.store.map (·.key)).foldr insertKey [])) k =
+      readAt s.store k t.readTs := by
+  have hown : ownOf t k = none := by
+    unfold ownOf; rw [if_pos hu]
+    apply lookupW_none
+    intro p hp hpk
+    exact hk (List.mem_map.mpr ⟨p, hp, hpk⟩)
+  rw [lookupI_obsOf s t _ k hown]
+  by_cases hmem : k ∈ (t.writes.map (·.1) ++ s.store.map (·.key)).foldr insertKey []
+  · rw [if_pos hmem]
+  · rw [if_neg hmem]
+    symm
+    apply readAt_none_of_no_key
+    intro e he hek
+    apply hmem
+    rw [mem_foldr_insertKey]
+    exact List.mem_append_right _ (List.mem_map.mpr ⟨e, he, hek⟩)
+
+/-- every scan a live transaction logged says, for every key outside its own writes at that time,
+what the store holds at its read timestamp; and in the range-tracking variant a transaction that
+logged a scan is marked -/
+structure InvRS (c : MvccCfg) (s : St) : Prop where
+  obs : ∀ id t, Live s id t → ∀ sc ∈ t.slog, ∀ k, k ∉ sc.1 → lookupI sc.2 k = readAt s.store k t.readTs
+  marked : c.scanTracksRange = true → ∀ id t, Live s id t → t.slog ≠ [] → t.scanned = true
+
+theorem InvRS_init (c : MvccCfg) (a b t : Nat) : InvRS c (init a b t) := by
+  have hl : ∀ id t0, ¬ Live (init a b t) id t0 := by
+    intro id t0 h; simp [Live, getTxn, init] at h
+  exact ⟨fun id t0 h => absurd h (hl id t0), fun _ id t0 h => absurd h (hl id t0)⟩
+
+theorem InvRS_step (c : MvccCfg) (fp : Key → Nat) (s : St) (op : Op) (hB : InvB s) (h : InvRS c s) :
+    InvRS c (step c fp s op).1 := by
+  by_cases hop : op = .reopen
+  · subst hop
+    have hl : ∀ id t0, ¬ Live (step c fp s .reopen).1 id t0 := by
+      intro id t0 hl; simp [Live, step, reopenDB, getTxn] at hl
+    exact ⟨fun id t0 h => absurd h (hl id t0), fun _ id t0 h => absurd h (hl id t0)⟩
+  refine ⟨?_, ?_⟩
+  · intro id t' hl sc hsc k hk
+    rcases step_live c fp s op id t' hl with ⟨t, hlt, hev⟩ | ⟨upd, _, rfl⟩
+    · have hlt' := hB.readLt id t hlt
+      have hstab : readAt (step c fp s op).1.store k t.readTs = readAt s.store k t.readTs :=
+        step_readAt_below c fp s op hop k t.readTs hlt'
+      have hold := h.obs id t hlt
+      cases hev with
+      | same => rw [hstab]; exact hold sc hsc k hk
+      | write k' v cnt sz => rw [hstab]; exact hold sc hsc k hk
+      | read k' hu => rw [hstab]; exact hold sc hsc k hk
+      | scan tracked served h1 h2 =>
+        simp only at hsc ⊢
+        rw [hstab]
+        by_cases hu : t.update = true
+        · rw [if_pos hu] at hsc
+          rcases List.mem_cons.mp hsc with rfl | hsc
+          · exact scan_observation s t hu k hk
+          · exact hold sc hsc k hk
+        · rw [if_neg hu] at hsc
+          exact hold sc hsc k hk
+    · cases hsc
+  · intro hflag id t' hl hne
+    rcases step_live c fp s op id t' hl with ⟨t, hlt, hev⟩ | ⟨upd, _, rfl⟩
+    · have hold := h.marked hflag id t hlt
+      cases hev with
+      | same => exact hold hne
+      | write k' v cnt sz => exact hold hne
+      | read k' hu => exact hold hne
+      | scan tracked served h1 h2 =>
+        simp only at hne ⊢
+        by_cases hu : t.update = true
+        · simp [hflag, hu]
+        · rw [if_neg hu] at hne
+          simp [hold hne]
+    · exact absurd rfl hne
+
+theorem Reach_InvRS {c : MvccCfg} (hc : c.SnapGood) {fp : Key → Nat} {s : St} (h : Reach c fp s) : InvRS c s :=
+  Reach_ind (P := InvRS c) (InvRS_init c) (fun s op hr hs => InvRS_step c fp s op (Reach_InvB hc hr) hs) h
+
+/-- range-tracking variant: a marked transaction that passed the conflict test has no
+`committedTxns` entry above its read timestamp -/
+theorem range_clear (c : MvccCfg) (s : St) (t : Txn) (hflag : c.scanTracksRange = true) (hsc : t.scanned = true)
+    (h : hasConflict c s t = false) : ∀ ct ∈ s.committed, c.skipOp.nat ct.1 t.readTs = true := by
+  unfold hasConflict at h
+  simp only [hflag, hsc, Bool.true_and] at h
+  split at h
+  · cases h
+  · rename_i hany
+    intro ct hct
+    have : ¬ (s.committed.any (fun ct => !(c.skipOp.nat ct.1 t.readTs)) = true) := hany
+    rw [List.any_eq_true] at this
+    cases hv : c.skipOp.nat ct.1 t.readTs with
+    | true => rfl
+    | false => exact absurd ⟨ct, hct, by simp [hv]⟩ this
+
+theorem InvScan_init (a b t : Nat) : ScanOKs (init a b t).log := trivial
+
+/-- Preservation of `ScanOKs` in the range-tracking variant: a transaction that scanned and
+commits saw no commit at all above its read timestamp, so the store it scanned is the abstract
+map at its commit point. -/
+theorem InvScan_step (c : MvccCfg) (hc : c.ConfGood) (hflag : c.RangeGood) (fp : Key → Nat) (s : St) (op : Op)
+    (hr : Reach c fp s) (h : ScanOKs s.log) : ScanOKs (step c fp s op).1.log := by
+  have hseed : c.SeedGood := hc.1.2.2.2.2.2.2.2
+  have hsnap : c.SnapGood := ⟨hc.1.1, hseed⟩
+  rcases step_kind c fp s op with ⟨_, h2, _⟩ | ⟨_, h2, _, _⟩ | ⟨t, hw, _, h2, _, hok, id, hg, hd, hop⟩ | ⟨_, hs⟩
+  · rw [h2]; exact h
+  · rw [h2]; exact h
+  · subst hop
+    have hA := Reach_InvA hseed hr
+    have hB := Reach_InvB hsnap hr
+    have hI := Reach_InvC hc hr
+    have hS := Reach_InvS hr
+    have hRS := Reach_InvRS hsnap hr
+    have hl : Live s id t := ⟨hg, hd⟩
+    have hnc := no_conflict_of_ok c hc.1.2.2.1 fp s id t hg hd hw hok
+    rw [h2]
+    refine ⟨?_, h⟩
+    intro sc hsc k hk
+    simp only [commitOf_slog] at hsc
+    have hmark : t.scanned = true := hRS.marked hflag id t hl (by intro h0; rw [h0] at hsc; cases hsc)
+    have hclear := range_clear c s t hflag hmark hnc
+    have hskip : c.skipOp = .le := hc.1.2.2.2.1
+    -- no successful commit above T's read timestamp
+    have hnone : ∀ cm ∈ s.log, cm.ts ≤ t.readTs := by
+      intro cm hcm
+      by_cases hle : cm.ts ≤ t.readTs
+      · exact hle
+      · exfalso
+        have hheld := hI.wm.held _ (hI.held id t hl)
+        have hcl := hI.cleanLe
+        obtain ⟨fps, hmem, _⟩ := hI.hist cm hcm (by simp only at hheld; omega)
+        have := hclear (cm.ts, fps) hmem
+        rw [hskip, le_nat] at this
+        exact hle this
+    have hlt := hB.readLt id t hl
+    have hpos := hB.pos
+    have hstable : readAt s.store k (s.nextTs - 1) = readAt s.store k t.readTs := by
+      unfold readAt
+      rw [bestOf_between s.store k t.readTs (s.nextTs - 1) (by omega)]
+      intro e he _
+      obtain ⟨cm, hcm, hts, _⟩ := (hA.storeLog e).mp he
+      have := hnone cm hcm
+      exact Or.inl (by omega)
+    rw [hRS.obs id t hl sc hsc k hk, ← hstable, hS, readAt_flatLog s.log hA.logSorted,
+      filter_all (fun cm hcm => by have := hA.logLt cm hcm; omega)]
+  · have e2 : (step c fp s op).1.log = s.log := by rw [hs]; rfl
+    rw [e2]; exact h
+
+theorem Reach_ScanOKs {c : MvccCfg} (hc : c.ConfGood) (hflag : c.RangeGood) {fp : Key → Nat} {s : St}
+    (h : Reach c fp s) : ScanOKs s.log :=
+  Reach_ind (P := fun s => ScanOKs s.log) InvScan_init (fun s op hr hs => InvScan_step c hc hflag fp s op hr hs) h
+
+/-- `a` scanned and saw nothing for a key that `b` wrote (live value, outside `a`'s own writes):
+then `a` cannot run after `b` in a serial execution with range reads -/
+def sawNothingOf (a b : Commit) : Bool :=
+  a.slog.any (fun sc => b.writes.any (fun p =>
+    p.2.isSome && !(sc.1.contains p.1) && (lookupI sc.2 p.1).isNone && (lookupW b.writes p.1 == some p.2)))
+
+theorem not_after (a b : Commit) (h : sawNothingOf a b = true) (m' : AMap) :
+    ¬ SerialR (fun _ => none) [b, a] m' := by
+  rintro ⟨_, _, _, hsc, _⟩
+  unfold sawNothingOf at h
+  rw [List.any_eq_true] at h
+  obtain ⟨sc, hscm, h⟩ := h
+  rw [List.any_eq_true] at h
+  obtain ⟨p, _, h⟩ := h
+  simp only [Bool.and_eq_true, Bool.not_eq_true', beq_iff_eq, Option.isSome_iff_exists, Option.isNone_iff_eq_none] at h
+  obtain ⟨⟨⟨⟨v, hv⟩, hnot⟩, hnone⟩, hlw⟩ := h
+  have hk : p.1 ∉ sc.1 := by
+    intro hmem
+    have : sc.1.contains p.1 = true := by simpa using hmem
+    rw [this] at hnot; cases hnot
+  have := hsc sc hscm p.1 hk
+  rw [hnone] at this
+  simp only [applyTxn, hlw, hv] at this
+  cases this
 
 end NoKV.Mvcc
